@@ -18,6 +18,10 @@
  *   kfself <assign|concat> <A|AR|L|T> <e>*   (known findings KF-C04-self-assign / KF-C04-self-concat: op(x, x) on a fresh
  *                                       container with these elements, in a forked child; AR = Array whose capacity was
  *                                       reserved to 2*len first; prints `ret <dump>` | `diverges` | `ub`)
+ * kinds A12 / A5 = Array of 12-byte / 5-byte records (file-scope types Rec12 / Rec5: own Cmp, no Swap, no Assign, sizes
+ * that are not a multiple of the machine word, so the default byte-wise swap/assign paths and the rounded Array stride are
+ * exercised); an integer v is encoded in the whole record (redundantly: a trailing check field), a record whose fields do
+ * not belong together decodes to a value below -2^50, which no reference array ever holds.
  * kinds: A = Array of Int, L = List of Int, T = heap Tuple of Int objects (identity = id), AS / LS = Array / List of String
  * (value v in 0..9999999 is the string "k%07d": strcmp order = numeric order).
  * comparators: 0 = sort() i.e. lt on the whole value, 1 = key(a) < key(b), 2 = key(a) > key(b), 3 = key(a) <= key(b),
@@ -38,8 +42,8 @@
 #define HP 4294967291ULL
 #define ABSENT 7777777       /* a value the generators never use (fits the String encoding) */
 
-enum { K_NONE, K_A, K_L, K_T, K_AS, K_LS };
-static const char* kind_name[] = { "-", "A", "L", "T", "AS", "LS" };
+enum { K_NONE, K_A, K_L, K_T, K_AS, K_LS, K_A12, K_A5, K_NKIND };
+static const char* kind_name[] = { "-", "A", "L", "T", "AS", "LS", "A12", "A5" };
 typedef struct { int64_t val; int64_t id; } Ent;          /* id = -1 for value elements */
 typedef struct { int kind; int gc; var obj; Ent* ref; size_t n, cap; } Slot;
 
@@ -65,12 +69,41 @@ static int64_t pool_id(var p) {
 }
 
 static int is_str(int k) { return k == K_AS || k == K_LS; }
-static int is_arr(int k) { return k == K_A || k == K_AS; }
+static int is_arr(int k) { return k == K_A || k == K_AS || k == K_A12 || k == K_A5; }
+static int is_rec(int k) { return k == K_A12 || k == K_A5; }
+#define R5MAX 8388607LL
+#define CORRUPT (-(1LL << 50))
+
+/* ---- record element types whose size is not a multiple of the word size ---- */
+struct Rec12 { int32_t key; int32_t lo; int32_t chk; };                 /* v = key * 65536 + lo, chk = check field */
+struct Rec5 { uint8_t b[5]; };                                           /* v + 2^23 big-endian in b[0..2], check in b[3..4] */
+static int64_t fdiv(int64_t v, int64_t d) { int64_t q = v / d; if ((v % d) && ((v < 0) != (d < 0))) q--; return q; }
+static uint32_t chk_of(int64_t v) { return (uint32_t)((((uint64_t)v * 2654435761ULL) >> 9) & 0x7fffffffULL); }
+static void rec12_enc(struct Rec12* r, int64_t v) { r->key = (int32_t)fdiv(v, 65536); r->lo = (int32_t)(v - (int64_t)r->key * 65536); r->chk = (int32_t)chk_of(v); }
+static int64_t rec12_dec(const struct Rec12* r) {
+  int64_t v = (int64_t)r->key * 65536 + r->lo;
+  if (r->lo < 0 || r->lo > 65535 || (uint32_t)r->chk != chk_of(v)) return CORRUPT - (((int64_t)(uint32_t)r->chk) & 0xffff) - 1;
+  return v;
+}
+static void rec5_enc(struct Rec5* r, int64_t v) { uint32_t u = (uint32_t)(v + R5MAX + 1); uint32_t c = chk_of(v) & 0xffff;
+  r->b[0] = (u >> 16) & 255; r->b[1] = (u >> 8) & 255; r->b[2] = u & 255; r->b[3] = (c >> 8) & 255; r->b[4] = c & 255; }
+static int64_t rec5_dec(const struct Rec5* r) {
+  int64_t v = (int64_t)(((uint32_t)r->b[0] << 16) | ((uint32_t)r->b[1] << 8) | r->b[2]) - R5MAX - 1;
+  uint32_t c = ((uint32_t)r->b[3] << 8) | r->b[4];
+  if (c != (chk_of(v) & 0xffff)) return CORRUPT - (int64_t)c - 1;
+  return v;
+}
+static int Rec12_Cmp(var self, var obj) { int64_t a = rec12_dec(self), b = rec12_dec(obj); return a > b ? 1 : a < b ? -1 : 0; }
+static int Rec5_Cmp(var self, var obj) { int64_t a = rec5_dec(self), b = rec5_dec(obj); return a > b ? 1 : a < b ? -1 : 0; }
+var Rec12 = Cello(Rec12, Instance(Cmp, Rec12_Cmp));
+var Rec5 = Cello(Rec5, Instance(Cmp, Rec5_Cmp));
 static int is_lst(int k) { return k == K_L || k == K_LS; }
 
 /* value of an element object of any of the kinds */
 static int64_t ev(var x) {
   if (type_of(x) is Int) return ((struct Int*)x)->val;
+  if (type_of(x) is Rec12) return rec12_dec(x);
+  if (type_of(x) is Rec5) return rec5_dec(x);
   if (type_of(x) is String) { char* s = ((struct String*)x)->val; return s && s[0] == 'k' ? atoll(s + 1) : -1; }
   return -999;
 }
@@ -102,24 +135,28 @@ static int parse_elem(int k, const char* s, Ent* e) {
   e->id = -1;
   if (!parse_i64(s, &e->val)) return 0;
   if (is_str(k)) return e->val >= 0 && e->val <= STRMAX;
+  if (k == K_A5) return e->val >= -R5MAX - 1 && e->val <= R5MAX;
   return e->val >= -1000000000000LL && e->val <= 1000000000000LL;
 }
 static int parse_val(int k, const char* s, int64_t* v) {   /* probe value for mem / rem */
   if (!parse_i64(s, v)) return 0;
   if (is_str(k)) return *v >= 0 && *v <= STRMAX;
+  if (k == K_A5) return *v >= -R5MAX - 1 && *v <= R5MAX;
   return *v >= -1000000000000LL && *v <= 1000000000000LL;
 }
 
 /* a Cello object to pass as element / probe; valid until the next call with the same `which` */
 static char strbuf[4][16];
-static var mk_arg(int k, Ent e, int which, struct Int* ibuf, struct String* sbuf) {
+static var mk_arg(int k, Ent e, int which, struct Int* ibuf, struct String* sbuf, char* rbuf) {
+  if (k == K_A12) { struct Rec12* r = header_init(rbuf, Rec12, AllocStack); rec12_enc(r, e.val); return r; }
+  if (k == K_A5) { struct Rec5* r = header_init(rbuf, Rec5, AllocStack); rec5_enc(r, e.val); return r; }
   if (k == K_T) { int c = 0; return pool_obj(e.id, e.val, &c); }
   if (is_str(k)) { snprintf(strbuf[which], sizeof strbuf[which], "k%07" PRId64, e.val); sbuf->val = strbuf[which]; return sbuf; }
   ibuf->val = e.val; return ibuf;
 }
 /* stack objects with headers for arguments */
-#define ARG_DECL(n) struct Int* n##_i = $I(0); struct String* n##_s = $S("")
-#define ARG(n, k, e, which) mk_arg(k, e, which, n##_i, n##_s)
+#define ARG_DECL(n) struct Int* n##_i = $I(0); struct String* n##_s = $S(""); char n##_r[sizeof(struct Header) + 16] __attribute__((aligned(8)))
+#define ARG(n, k, e, which) mk_arg(k, e, which, n##_i, n##_s, n##_r)
 
 /* ---- reference array ---- */
 static void entcpy(Ent* d, const Ent* s, size_t n) { if (n) memcpy(d, s, n * sizeof(Ent)); }
@@ -311,10 +348,12 @@ static var new_container(int k, Ent* es, size_t n) {
   var* items = malloc((n + 2) * sizeof(var)); size_t c = 0;
   var* tmp = malloc((n + 1) * sizeof(var));
   char sb[16];
-  if (k != K_T) items[c++] = is_str(k) ? String : Int;
+  if (k != K_T) items[c++] = is_str(k) ? String : k == K_A12 ? Rec12 : k == K_A5 ? Rec5 : Int;
   for (size_t i = 0; i < n; i++) {
     if (k == K_T) { int cf = 0; tmp[i] = pool_obj(es[i].id, es[i].val, &cf); }
     else if (is_str(k)) { snprintf(sb, sizeof sb, "k%07" PRId64, es[i].val); tmp[i] = new_raw(String, $S(sb)); }
+    else if (k == K_A12) { tmp[i] = alloc_raw(Rec12); rec12_enc(tmp[i], es[i].val); }
+    else if (k == K_A5) { tmp[i] = alloc_raw(Rec5); rec5_enc(tmp[i], es[i].val); }
     else tmp[i] = new_raw(Int, $I(es[i].val));
     items[c++] = tmp[i];
   }
@@ -323,7 +362,7 @@ static var new_container(int k, Ent* es, size_t n) {
   free(args->items); args->items = items;
   var obj = new_raw_with(k == K_T ? Tuple : is_arr(k) ? Array : List, args);
   del_raw(args);                               /* frees `items` */
-  if (k != K_T) for (size_t i = 0; i < n; i++) del_raw(tmp[i]);
+  if (k != K_T) for (size_t i = 0; i < n; i++) { if (is_rec(k)) dealloc_raw(tmp[i]); else del_raw(tmp[i]); }
   free(tmp);
   return obj;
 }
@@ -451,7 +490,7 @@ int main(int argc, char** argv) {
     }
     if (!strcmp(cmd, "new") && nt >= 3) {
       s = slot_of(toks[1], 0); int k = K_NONE;
-      for (int j = 1; j <= 5; j++) if (!strcmp(toks[2], kind_name[j])) k = j;
+      for (int j = 1; j < K_NKIND; j++) if (!strcmp(toks[2], kind_name[j])) k = j;
       if (!s || k == K_NONE) { O("bad-op"); continue; }
       size_t n = nt - 3; Ent* es = malloc((n + 1) * sizeof(Ent)); int ok = 1;
       for (size_t i = 0; i < n && ok; i++) ok = parse_elem(k, toks[3 + i], &es[i]);
@@ -543,6 +582,7 @@ int main(int argc, char** argv) {
       int sk = src->kind, okk;
       if (k == K_T) okk = sk == K_T;
       else if (is_str(k)) okk = is_str(sk);
+      else if (is_rec(k)) okk = sk == k;
       else okk = sk == K_A || sk == K_L || (isc && sk == K_T);
       if (!okk) { O("bad-op"); continue; }
       if (k == K_T && isc) { int dup = 0; for (size_t i = 0; i < src->n && !dup; i++) dup = ref_has_id(s, src->ref[i].id); if (dup) { O("concat dup-refused"); continue; } }
